@@ -78,6 +78,10 @@ def _run_external(cmd, text, timeout_s):
 def solve_text(args):
     """Worker: (idx, text, kind, thorough) -> (idx, verdict, backend, seconds, model, cross)"""
     idx, text, kind, thorough = args
+    if kind.endswith("@known"):
+        # an obligation already listed as a known finding: one short attempt to see whether it (still) fails; no long ladder
+        r0, dt0, model0 = _run_z3_api(text, 5000)
+        return idx, {"unsat": "discharged", "sat": "refuted"}.get(r0, "undecided"), "z3-5.1", dt0, model0, [("z3-5.1", r0, round(dt0, 3))], None
     total = 0.0
     tried = []
     has_q = "(forall" in text or "(exists" in text
@@ -163,7 +167,8 @@ def _solve_index(args):
     import hashlib
     text = to_smt2(ob)
     sha = hashlib.sha1(text.encode()).hexdigest()[:16]
-    return solve_text((i, text, ob.kind, thorough)) + (sha,)
+    kind = ob.kind + ("@known" if ob.meta.get("known_pattern") else "")
+    return solve_text((i, text, kind, thorough)) + (sha,)
 
 
 def _batch_external(name, cmd, texts, per_query_s):
@@ -202,10 +207,10 @@ def _solve_chunk(idxs):
         ob = _OBS[i]
         text = to_smt2(ob)
         sha = hashlib.sha1(text.encode()).hexdigest()[:16]
-        r = list(solve_text((i, text, ob.kind, False))) + [sha]
+        r = list(solve_text((i, text, ob.kind + ("@known" if ob.meta.get("known_pattern") else ""), False))) + [sha]
         res.append(r)
         texts.append(text)
-    todo = [k for k, i in enumerate(idxs) if _OBS[i].kind != "cover"]
+    todo = [k for k, i in enumerate(idxs) if _OBS[i].kind != "cover" and not _OBS[i].meta.get("known_pattern")]
     if todo:
         solvers = (("cvc5-1.0", ["/usr/bin/cvc5", "--lang=smt2", "--incremental", f"--tlimit-per={EXT_TIMEOUT_S * 1000}"]),
                    ("z3-4.8", ["/usr/bin/z3", f"-t:{EXT_TIMEOUT_S * 1000}"]))
